@@ -129,6 +129,14 @@ func Harness_C12_basic_login_unique() {
 	verifAssert(err != nil, "wrong-password-never-authenticates")
 	_, _, err = a.Authenticate([]byte("nobody:pwd111"), "")
 	verifAssert(err != nil, "unknown-login-never-authenticates")
+	// ... whatever the password, the empty one included
+	anyPw := verifNondetString("unknownLoginPassword", 0, 2, "p1")
+	recU, _, errU := a.Authenticate([]byte("nobody:"+anyPw), "")
+	verifAssert(errU != nil && recU == nil, "unknown-login-never-authenticates")
+	// and a known login does not authenticate with an empty or truncated password
+	shortPw := []string{"", "p", "pwd11"}[verifChoose("shortPassword", 3)]
+	_, _, err = a.Authenticate([]byte(l1+":"+shortPw), "")
+	verifAssert(err != nil, "wrong-password-never-authenticates")
 	verifReach("end")
 }
 
